@@ -100,6 +100,6 @@ func (r *Rand) Intn(n int) int {
 	return r.real.Intn(n)
 }
 
-func (r *Rand) Int() int           { return int(r.Int63()) }
+func (r *Rand) Int() int             { return int(r.Int63()) }
 func (r *Rand) Int63n(n int64) int64 { return r.Int63() % n }
-func (r *Rand) Seed(seed int64)    { r.touch("Seed") }
+func (r *Rand) Seed(seed int64)      { r.touch("Seed") }
